@@ -37,7 +37,7 @@ PANIC_TABLE = {
     ("get_rook_moves", "assert", "BoundsCheck"): "C05 in-bounds audit",
     ("pext::get_pext_index", "assert", "Overflow:Add(usize)"):
         "PEXT back end: C05 evaluates offset + pext(occupancy, mask) for every square and relevant subset and finds it inside the table",
-    ("Board::parse_board*", "assert", "Overflow:Add(usize)"): "file += digit / += 1: each addend is at most 9 and the sum is bounded by the input length, far below usize::MAX (recorded assumption)",
+    ("<placement-stage>", "assert", "Overflow:Add(usize)"): "file += digit / += 1: each addend is at most 9 and the sum is bounded by the input length, far below usize::MAX (recorded assumption)",
 }
 
 
@@ -49,12 +49,17 @@ def run(ctx):
     FROM_FEN = B + "::from_fen"
     FROM_STR = "<%s as core::str::traits::FromStr>::from_str" % B
     # ------------------------------------------------------------------ totality
+    stages = g.stages(FROM_FEN)
+    placement_stage = g.stage_for(FROM_FEN, "placement")
+    side_stage = g.stage_for(FROM_FEN, "side")
+    # the table key of the placement stage's column counter follows the stage's current name
+    table = dict(PANIC_TABLE)
+    table[("Board::%s*" % placement_stage.rsplit("::", 1)[-1], "assert", "Overflow:Add(usize)")] = table.pop(("<placement-stage>", "assert", "Overflow:Add(usize)"))
     ctx.rule("totality.panic-audit")
     a = panics.Audit(f).run([FROM_FEN, FROM_STR], skip=lambda k: "movegen" in k and False)
-    n = panics.report(ctx, a, PANIC_TABLE, "panic")
+    n = panics.report(ctx, a, table, "panic")
     ctx.floor("panic sites audited", n, 20)
     ctx.rule("totality.total-callees")
-    stages = sorted(k for k in f.bodies if g.is_stage(k) and k.startswith(B + "::parse_"))
     n = parser_callees(ctx, f, [FROM_FEN, FROM_STR] + stages, "fen", only_files=("board/parse.rs",))
     ctx.floor("core callees of the FEN parser", n, 15)
     # ------------------------------------------------------------------ six fields
@@ -165,7 +170,7 @@ def run(ctx):
                       "%s can return Ok on a path with no evidence that its field is non-empty (an empty field would be accepted)" % sname, loc(sb),
                       sample={"stage": sname, "witness": witness} if nok == 1 else None)
         ctx.floor("%s Ok paths" % sname, nok, 1)
-        if sname == "parse_board":
+        if st == placement_stage:
             ctx.rule("count-exactness")
             okp = [p for p in ps if p.end == "return" and p.ret[0] == "agg" and p.ret[2] == "Ok"]
 
@@ -255,7 +260,7 @@ def run(ctx):
     n = 0
     for (stage, role), variants in sorted(emap.items()):
         want = ERR_OF.get(role)
-        if stage == "parse_side_to_move":
+        if stage == side_stage.rsplit("::", 1)[-1]:
             want = "InvalidSideToMove"
         n += 1
         ctx.check(variants == {want}, "parser-error:%s" % stage, "a failure of %s (role %s) is reported as %s, expected %s" % (stage, role, sorted(map(str, variants)), want),
